@@ -42,6 +42,23 @@ _SECOND_PASS = (
 )
 _DEF_MATCH = "        def _match(\n            state: State, parts: list[str], values: list[str]\n        )"
 
+_ALIAS_TAIL = (
+    "            if rule.defaults:\n"
+    "                result.update(rule.defaults)\n"
+    "\n"
+    "            if rule.alias and rule.map.redirect_defaults:\n"
+    "                raise RequestAliasRedirect(result, rule.endpoint)\n"
+    "\n"
+    "            return rule, result\n"
+)
+_FALLBACK = "        if url_scheme is None:\n            url_scheme = self.url_scheme\n"
+_SECURE = "        secure = url_scheme in {\"https\", \"wss\"}\n"
+_WS_SCHEME = "            url_scheme = \"wss\" if secure else \"ws\"\n"
+_HTTP_SCHEME = "        elif url_scheme:\n            url_scheme = \"https\" if secure else \"http\"\n"
+_REDIRECT_SCHEME = "        scheme = self.url_scheme or \"http\"\n"
+_ALIAS_BUILD_ARGS = "            endpoint, values, method, append_unknown=False, force_external=True\n"
+_PREFIX = "        scheme = f\"{url_scheme}:\" if url_scheme else \"\"\n"
+
 MUTANTS = [
     # R12.1 ----------------------------------------------------------------
     {"name": "redirect-path-keeps-leading-slashes", "expect": "R12.1", "edits": [(M, _PATH_JOIN, '        path = "/".join((self.script_name.strip("/"), path_info))')]},
@@ -117,6 +134,46 @@ MUTANTS = [
         "                rv = _match(self._root, [domain, *path.split(\"/\")], [])\n"
         "            except SlashRequired:\n"
         "                raise RequestPath(f\"{unmerged}/\") from None\n")]},
+    # R12.7 ----------------------------------------------------------------
+    {"name": "alias-signal-raised-before-the-defaults-are-merged", "expect": "R12.7", "edits": [(T, _ALIAS_TAIL,
+        "            if rule.alias and rule.map.redirect_defaults:\n"
+        "                raise RequestAliasRedirect(result, rule.endpoint)\n"
+        "\n"
+        "            if rule.defaults:\n"
+        "                result.update(rule.defaults)\n"
+        "\n"
+        "            return rule, result\n")]},
+    {"name": "defaults-merged-only-for-rules-that-are-not-aliases", "expect": "R12.7", "edits": [(T, "            if rule.defaults:\n                result.update(rule.defaults)\n", "            if rule.defaults and not rule.alias:\n                result.update(rule.defaults)\n")]},
+    {"name": "alias-signal-given-a-copy-taken-before-the-defaults", "expect": "R12.7", "edits": [(T, _ALIAS_TAIL,
+        "            converted = dict(result)\n"
+        "            if rule.defaults:\n"
+        "                result.update(rule.defaults)\n"
+        "\n"
+        "            if rule.alias and rule.map.redirect_defaults:\n"
+        "                raise RequestAliasRedirect(converted, rule.endpoint)\n"
+        "\n"
+        "            return rule, result\n")]},
+    {"name": "alias-signal-built-from-the-url-values-alone", "expect": "R12.7", "edits": [(T, "                raise RequestAliasRedirect(result, rule.endpoint)\n", "                raise RequestAliasRedirect(dict(zip(rule._converters, values)), rule.endpoint)\n")]},
+    {"name": "alias-check-in-a-helper-called-before-the-defaults", "expect": "R12.7", "edits": [(T, _ALIAS_TAIL,
+        "            def _canonicalise(matched: dict[str, t.Any]) -> None:\n"
+        "                if rule.alias and rule.map.redirect_defaults:\n"
+        "                    raise RequestAliasRedirect(matched, rule.endpoint)\n"
+        "\n"
+        "            _canonicalise(result)\n"
+        "            if rule.defaults:\n"
+        "                result.update(rule.defaults)\n"
+        "\n"
+        "            return rule, result\n")]},
+    # R12.8 ----------------------------------------------------------------
+    {"name": "secure-flag-computed-before-the-bound-scheme-fallback", "expect": "R12.8", "edits": [(M, _FALLBACK, ""), (M, _SECURE, _SECURE + "\n" + _FALLBACK)]},
+    {"name": "slash-redirect-scheme-hard-coded", "expect": "R12.8", "edits": [(M, _REDIRECT_SCHEME, "        scheme = \"http\"\n")]},
+    {"name": "alias-redirect-built-with-an-explicit-http-scheme", "expect": "R12.8", "edits": [(M, _ALIAS_BUILD_ARGS, "            endpoint, values, method, append_unknown=False, force_external=True, url_scheme=\"http\"\n")]},
+    {"name": "websocket-scheme-polarity-swapped", "expect": "R12.8", "edits": [(M, _WS_SCHEME, "            url_scheme = \"ws\" if secure else \"wss\"\n")]},
+    {"name": "secure-flag-forgets-wss", "expect": "R12.8", "edits": [(M, _SECURE, "        secure = url_scheme == \"https\"\n")]},
+    {"name": "bound-scheme-fallback-inverted", "expect": "R12.8", "edits": [(M, _FALLBACK, "        if url_scheme is not None:\n            url_scheme = self.url_scheme\n")]},
+    {"name": "secure-flag-from-the-argument-in-a-conditional-expression", "expect": "R12.8", "edits": [(M, _FALLBACK, ""), (M, _SECURE,
+        "        secure = url_scheme in {\"https\", \"wss\"}\n"
+        "        url_scheme = self.url_scheme if url_scheme is None else url_scheme\n")]},
 ]
 
 TWINS = [
@@ -210,4 +267,64 @@ TWINS = [
         "                raise RequestPath(path)\n"
         "            raise NoMatch(have_match_for, websocket_mismatch)"),
     ]},
+    # R12.7 ----------------------------------------------------------------
+    {"name": "defaults-merged-by-rebuilding-the-dict", "edits": [(T, "            if rule.defaults:\n                result.update(rule.defaults)\n", "            if rule.defaults:\n                result = {**result, **rule.defaults}\n")]},
+    {"name": "alias-signal-given-a-copy-of-the-complete-result-by-keyword", "edits": [(T, "                raise RequestAliasRedirect(result, rule.endpoint)\n", "                raise RequestAliasRedirect(endpoint=rule.endpoint, matched_values=dict(result))\n")]},
+    {"name": "defaults-merged-separately-on-the-alias-and-the-result-path", "edits": [(T, _ALIAS_TAIL,
+        "            if rule.alias and rule.map.redirect_defaults:\n"
+        "                if rule.defaults:\n"
+        "                    result.update(rule.defaults)\n"
+        "                raise RequestAliasRedirect(result, rule.endpoint)\n"
+        "\n"
+        "            if rule.defaults:\n"
+        "                result.update(rule.defaults)\n"
+        "\n"
+        "            return rule, result\n")]},
+    {"name": "defaults-through-a-local-merged-unconditionally-pair-in-a-local", "edits": [(T, _ALIAS_TAIL,
+        "            extra = rule.defaults or {}\n"
+        "            result.update(extra)\n"
+        "            found = (rule, result)\n"
+        "\n"
+        "            if rule.alias and rule.map.redirect_defaults:\n"
+        "                raise RequestAliasRedirect(result, rule.endpoint)\n"
+        "\n"
+        "            return found\n")]},
+    {"name": "alias-check-in-a-helper-called-after-the-defaults", "edits": [(T, _ALIAS_TAIL,
+        "            def _canonicalise(matched: dict[str, t.Any]) -> None:\n"
+        "                if rule.alias and rule.map.redirect_defaults:\n"
+        "                    raise RequestAliasRedirect(matched, rule.endpoint)\n"
+        "\n"
+        "            if rule.defaults:\n"
+        "                result.update(rule.defaults)\n"
+        "\n"
+        "            _canonicalise(result)\n"
+        "            return rule, result\n")]},
+    {"name": "defaults-merged-by-in-place-union-under-a-flipped-test", "edits": [(T, "            if rule.defaults:\n                result.update(rule.defaults)\n", "            if not rule.defaults:\n                pass\n            else:\n                result |= rule.defaults\n")]},
+    # R12.8 ----------------------------------------------------------------
+    {"name": "effective-scheme-in-a-local-by-conditional-expression", "edits": [
+        (M, _FALLBACK, "        bound = self.url_scheme if url_scheme is None else url_scheme\n"),
+        (M, _SECURE, "        secure = bound in (\"https\", \"wss\")\n"),
+        (M, _HTTP_SCHEME, "        elif bound:\n            url_scheme = \"https\" if secure else \"http\"\n        else:\n            url_scheme = bound\n"),
+    ]},
+    {"name": "secure-flag-by-two-equality-tests", "edits": [(M, _SECURE, "        secure = url_scheme == \"https\" or url_scheme == \"wss\"\n")]},
+    {"name": "scheme-fallback-in-a-helper-method", "edits": [
+        (M, "    def _partial_build(\n", "    def _effective_scheme(self, url_scheme: str | None) -> str:\n        return self.url_scheme if url_scheme is None else url_scheme\n\n    def _partial_build(\n"),
+        (M, _FALLBACK, "        url_scheme = self._effective_scheme(url_scheme)\n"),
+    ]},
+    {"name": "redirect-scheme-default-by-conditional-expression", "edits": [(M, _REDIRECT_SCHEME, "        scheme = self.url_scheme if self.url_scheme else \"http\"\n")]},
+    {"name": "scheme-prefix-by-if-statement-and-concatenation", "edits": [(M, _PREFIX, "        scheme = \"\"\n        if url_scheme:\n            scheme = url_scheme + \":\"\n")]},
+    {"name": "websocket-scheme-from-a-lookup-table-secure-set-as-module-constant", "edits": [
+        (M, "class MapAdapter:\n", "_SECURE_SCHEMES = frozenset({\"https\", \"wss\"})\n\n\nclass MapAdapter:\n"),
+        (M, _SECURE, "        secure = url_scheme in _SECURE_SCHEMES\n"),
+        (M, _WS_SCHEME, "            url_scheme = {True: \"wss\", False: \"ws\"}[secure]\n"),
+    ]},
+    {"name": "secure-flag-computed-after-the-fallback-inside-both-branches", "edits": [
+        (M, _SECURE, ""),
+        (M, "        if websocket:\n            force_external = True\n" + _WS_SCHEME + _HTTP_SCHEME,
+         "        if websocket:\n            force_external = True\n            url_scheme = \"wss\" if url_scheme in {\"https\", \"wss\"} else \"ws\"\n"
+         "        elif url_scheme:\n            url_scheme = \"https\" if url_scheme in {\"https\", \"wss\"} else \"http\"\n"),
+    ]},
+    {"name": "alias-redirect-passes-the-bound-scheme-explicitly-through-a-local", "edits": [(M,
+        "        url = self.build(\n" + _ALIAS_BUILD_ARGS + "        )\n",
+        "        bound = self.url_scheme\n        url = self.build(\n            endpoint, values, method, append_unknown=False, force_external=True, url_scheme=bound\n        )\n")]},
 ]
